@@ -18,6 +18,7 @@
 package tsdb
 
 import (
+	"errors"
 	"fmt"
 	"io"
 	"strconv"
@@ -31,6 +32,7 @@ import (
 	"go.uber.org/atomic"
 
 	"github.com/lindb/lindb/config"
+	"github.com/lindb/lindb/constants"
 	"github.com/lindb/lindb/flow"
 	"github.com/lindb/lindb/kv"
 	"github.com/lindb/lindb/metrics"
@@ -455,6 +457,10 @@ func (f *dataFamily) memoryFilter(shardExecuteContext *flow.ShardExecuteContext)
 	memFilter := func(memDB memdb.MemoryDatabase) error {
 		rs, err := memDB.Filter(shardExecuteContext)
 		if err != nil {
+			if errors.Is(err, constants.ErrNotFound) {
+				// this memory database has no data for the query, other sources may have
+				return nil
+			}
 			return err
 		}
 		resultSet = append(resultSet, rs...)
@@ -510,7 +516,12 @@ func (f *dataFamily) fileFilter(shardExecuteContext *flow.ShardExecuteContext) (
 		return nil, nil
 	}
 	filter := newFilterFunc(f.timeRange.Start, snapShot, metricReaders)
-	return filter.Filter(shardExecuteContext.SeriesIDsAfterFiltering, shardExecuteContext.StorageExecuteCtx.Fields)
+	resultSet, err = filter.Filter(shardExecuteContext.SeriesIDsAfterFiltering, shardExecuteContext.StorageExecuteCtx.Fields)
+	if err != nil && errors.Is(err, constants.ErrNotFound) {
+		// files have no data for the query, memory databases may have
+		return nil, nil
+	}
+	return resultSet, err
 }
 
 // WriteRows writes metric rows with same family in batch.
